@@ -12,6 +12,7 @@ class FT:
     """field term"""
     __array_ufunc__ = None
     __array_priority__ = 10000
+    _defers_scalars = True      # E * FT, CE * FT return NotImplemented so that FT.__rmul__ builds the scaled field
 
     def __init__(s, op, *a, shape=(4, 6)):
         s.op, s.a, s._shape = op, a, tuple(shape)
